@@ -32,6 +32,11 @@ def check(chk):
     _model_conj(chk)
     _guard(chk)
     _stage_order(chk)
+    # queries leave the stored decomposition alone (shared with C14): an accessor that rescales the stored arrays in place
+    # changes what every later scores() / components() / transform() returns
+    from . import c14 as _c14q
+    from .c01 import _Relabel as _RLq
+    _c14q._query_mutates(_RLq(chk, "HIST.query_mutates", "NORM.query_mutates"))
     pm = chk.pm
     cp = pm.cls("xeofs.cross.cpcca.CPCCA")
     fns = [m for c in (cp, pm.cls("ComplexCPCCA"), pm.cls("HilbertCPCCA"), pm.cls("BaseModelCrossSet")) for m in c.methods.values() if m.name != "__init__"]
